@@ -180,8 +180,9 @@ def order(ck, prog):
 def leaf_order(ck, prog):
     """prove_batch, from_paths (builders) and get_root, into_paths (readers) are siblings over one data layout; a builder that stores leaf k of the
     SORTED list at slot k produces an opening the readers misread for every unsorted position list"""
-    readers = [prog.fn(BMP + "::get_root"), prog.fn(BMP + "::into_paths")]
-    builders = [prog.fn(BMP + "::from_paths"), prog.fn(MT + "::prove_batch")]
+    # inlined views: private accessors / helpers these functions are split into are part of them
+    readers = [prog.inl(prog.fn(BMP + "::get_root")), prog.inl(prog.fn(BMP + "::into_paths"))]
+    builders = [prog.inl(prog.fn(BMP + "::from_paths")), prog.inl(prog.fn(MT + "::prove_batch"))]
     for f in list(builders):
         for b, t in f.calls():
             for cid in f.closure_args(t):
@@ -208,7 +209,11 @@ def leaf_order(ck, prog):
                 continue
             n_r += 1
             iw = g.walk(ops=[t["args"][1]], at=(b, "T"), through=lambda tt: True)
-            ok = any(x.endswith("merkle::map_indexes") for x in g.callee_names_in(iw)) and any(is_map_lookup(f.term(n[1])) for n in iw if n[0] == "c")
+            nms = g.callee_names_in(iw)
+            # the position map: built by map_indexes, or (when that private function is inlined here) by enumerating the caller's list
+            from_positions = any(x.endswith("merkle::map_indexes") for x in nms) or \
+                (any(x.endswith("Iterator::enumerate") for x in nms) and any(f.local_name(p) == "indexes" for p in g.params_in(iw)))
+            ok = from_positions and any(is_map_lookup(f.term(n[1])) for n in iw if n[0] == "c")
             ck.ob("L", f"{f.nname.split('::')[-1]}:leaves-read#{n_r}", ok,
                   f"{f.nname.split('::')[-1]} reads self.leaves at the caller-order position obtained from map_indexes", loc=f.loc(b, "T"))
     for f in builders:
